@@ -502,7 +502,7 @@ func runCheck(chk *Check, tier, replay string, keep bool, only string) int {
 	sort.SliceStable(merged.Violations, func(a, b int) bool { return merged.Violations[a].Sig < merged.Violations[b].Sig })
 	var knownLines []string
 	for _, v := range merged.Violations {
-		if v.Replays > 0 && v.Replays < 5 {
+		if v.Replays < 5 {
 			// not reproducible identically: infrastructure problem, not a verdict
 			fmt.Fprintf(os.Stderr, "WARN property=%s: counter-example %q reproduced only %d/5 times; not reported as violation\n", chk.ID, v.Sig, v.Replays)
 			merged.Notes = append(merged.Notes, fmt.Sprintf("unstable counter-example discarded: %s (%d/5)", v.Sig, v.Replays))
